@@ -249,6 +249,17 @@ Definition check_C10_inst (sc : scenario) (ins : list (N * input)) (sent : list 
                               ++ (if existsb explained late then [15] else [])
                   end in
         c1 ++ c2 ++ c3 ++ c5) ivs
+      ++
+      (* over the whole run (also when intervals follow each other within one collection window or at one instant, where
+         the per-interval count is not judged): one StopOffer per stop after having offered, none for a cyclic instance
+         stopped before its first offer; a non-cyclic instance stopped before its first offer may send one *)
+      (let ended := flat_map (fun iv => match snd iv with Some te => [(fst iv, te)] | None => [] end) ivs in
+       let all_observed := forallb (fun p => snd p + t_collect c <? sc_end sc) ended in
+       let ambiguous := existsb (fun p => snd p =? fst p + d0) ended in
+       let lower := length (filter (fun p => fst p + d0 <? snd p) ended) in
+       let upper := if t_cyclic c =? 0 then length ended else lower in
+       let total := length (filter (fun x => (e_ttl (st_entry x) =? 0) && dest_eq (st_dest x) None) mine) in
+       if all_observed && negb ambiguous then (if Nat.leb lower total && Nat.leb total upper then [] else [3]) else [])
   end.
 
 Definition stop_raised (ins : list (N * input)) (tr : trace) : bool :=
@@ -307,7 +318,12 @@ Definition check_C12_inst (sc : scenario) (ins : list (N * input)) (sent : list 
         end) lt in
       if existsb (fun f => match f with None => true | _ => false end) finds then [] else
       let wins := flat_map (fun f => match f with Some w => [w] | None => [] end) finds in
-      let answers := filter (fun x => is_offer_of svc (st_entry x) && match st_dest x with Some _ => true | None => false end) sent in
+      (* when another instance shares service and instance id, an answer is attributed by its versions as well *)
+      let shared := existsb (fun jj => negb (fst jj =? i) && (s_sid (in_service (snd jj)) =? s_sid svc)
+                                       && (s_iid (in_service (snd jj)) =? s_iid svc)) (sc_insts sc) in
+      let answers := filter (fun x => is_offer_of svc (st_entry x)
+                                      && (negb shared || ((e_maj (st_entry x) =? s_maj svc) && (e_val (st_entry x) =? s_min svc)))
+                                      && match st_dest x with Some _ => true | None => false end) sent in
       let in_window (x : sent_t) :=
         existsb (fun w => let '(a, lo, hi) := w in dest_eq (st_dest x) (Some a) && (lo <=? st_time x) && (st_time x <=? hi)) wins in
       let visible := filter (fun w => snd w <=? sc_end sc) wins in
@@ -489,7 +505,8 @@ Definition check_C14 (sc : scenario) (tr : trace) : list N :=
 
 (* ------------------------------------------------------------------ C13 *)
 (* codes: 1 find not to multicast, 2 too many rounds, 3 round at an unscheduled instant, 4 content,
-   5 find for a service with a known live offer, 6 round omits an unfound watched service *)
+   5 find for a service with a known live offer, 6 round omits an unfound watched service,
+   7 a find after a round instant at which every watched service was found *)
 Definition live_at (ins : list (N * input)) (t_end : N) (a : addr) (s : service) (t : N) : option bool :=
   (* None: ambiguous at t (a change exactly at t) *)
   match expected_history (found_touches ins a s) t_end with
@@ -538,7 +555,20 @@ Definition check_C13 (sc : scenario) (tr : trace) : list N :=
                                            | Some false => existsb (fun x => (st_time x =? t) && entry_ids_eqb (st_entry x) (create_find_entry f (t_find_ttl c))) finds
                                            | _ => true
                                            end) (watched_at (t - 1))) round_times then [] else [6] in
-          c1 ++ c2 ++ c3 ++ c4 ++ c5 ++ c6
+          (* the find phase ends at the first round instant at which every watched service is found: nothing follows
+             (an instant at which liveness or the watched set is ambiguous ends the judgement) *)
+          let c7 := (fix go (l : list N) : list N :=
+                       match l with
+                       | [] => []
+                       | t :: r =>
+                           let ws := watched_at (t - 1) in
+                           if negb (Nat.eqb (length ws) (length (watched_at t)))
+                              || existsb (fun f => match found_filter f t with None => true | _ => false end) ws then []
+                           else if forallb (fun f => match found_filter f t with Some true => true | _ => false end) ws
+                                then (if existsb (fun x => t <? st_time x) finds then [7] else [])
+                                else go r
+                       end) sched in
+          c1 ++ c2 ++ c3 ++ c4 ++ c5 ++ c6 ++ c7
       | _, _ => c1
       end
   end.
